@@ -84,17 +84,16 @@ theorem unseeded_global_is_structural (e : Entry) (d : Draw) (hd : d ∈ plan e 
 /-- copying a mechanism (`.copy()`, `copy.copy`, `copy.deepcopy`, pickle) never changes where its noise comes from:
 the copy holds a generator of the same source, or no copy is obtained at all -/
 theorem copy_preserves_source (w : CopyWay) (m : Mech) (s : Seed) :
-    copySrc w (mechRng m s) = mechRng m s ∨ copySrc w (mechRng m s) = .error := by
+    copySrc w m s = mechRng m s ∨ copySrc w m s = .error := by
   cases w <;> cases m <;> cases s <;> decide
 
 /-- … hence every copy of an unseeded mechanism still draws from the OS CSPRNG (fresh Generator for Staircase /
 Bingham), and never from numpy's global generator -/
 theorem copy_unseeded_secure (w : CopyWay) (m : Mech) :
-    copySrc w (mechRng m .none) = .error ∨
-      (Draw.mk (.mech m) .noise (copySrc w (mechRng m .none))).secure = true := by
+    copySrc w m .none = .error ∨ (Draw.mk (.mech m) .noise (copySrc w m .none)).secure = true := by
   cases w <;> cases m <;> decide
 
-theorem copy_never_global (w : CopyWay) (m : Mech) (s : Seed) : copySrc w (mechRng m s) ≠ .globalNumpy := by
+theorem copy_never_global (w : CopyWay) (m : Mech) (s : Seed) : copySrc w m s ≠ .globalNumpy := by
   cases w <;> cases m <;> cases s <;> decide
 
 /-- why a copy must not RE-DERIVE its generator from `random_state` with the non-secure helper: for an unseeded
